@@ -28,23 +28,23 @@ const (
 )
 
 type tierCfg struct {
-	Bounds   map[string]int
-	MaxSteps int
-	MaxPaths int
-	Budget   int // seconds of exploration allowed for this harness (0 = default)
+	Bounds      map[string]int
+	MaxSteps    int
+	MaxPaths    int
+	Budget      int // seconds of exploration allowed for this harness (0 = default)
 	Preemptions int
-	Delays      int
+	Delays      *int // present: delay-bounded scheduling with this bound (0 = the deterministic round-robin schedule only)
 }
 
 type harnessCfg struct {
-	Name     string
-	Tiers    map[string]tierCfg
-	MapOrder bool
-	UnwindIsViolation bool // exceeding the call-depth bound counts as a violation (unbounded recursion)
-	Repeat   int // native replays per counterexample (schedule / map-order dependent behaviour)
-	Replay   string // "native" (default): go test -overlay of the same harness; "concrete": re-execution of the real code's SSA on the concrete inputs with the same models (harnesses whose models have no native counterpart)
-	Anchors  []string // functions of please that must be executed symbolically
-	Note     string
+	Name              string
+	Tiers             map[string]tierCfg
+	MapOrder          bool
+	UnwindIsViolation bool     // exceeding the call-depth bound counts as a violation (unbounded recursion)
+	Repeat            int      // native replays per counterexample (schedule / map-order dependent behaviour)
+	Replay            string   // "native" (default): go test -overlay of the same harness; "concrete": re-execution of the real code's SSA on the concrete inputs with the same models (harnesses whose models have no native counterpart)
+	Anchors           []string // functions of please that must be executed symbolically
+	Note              string
 }
 
 type checkCfg struct {
@@ -56,12 +56,37 @@ type checkCfg struct {
 	Assumptions []string
 	Outside     []string
 	Level       string
-	ReplayCwd string // working directory for the native replay binary (default: the package directory)
+	ReplayCwd   string // working directory for the native replay binary (default: the package directory)
+	// Parts: further harness groups of the same property that live in another package
+	// (own overlay files, options and engine); reports are merged into one verdict
+	Parts []partCfg
 	// manifest metadata (read by tools/genmanifest.py)
 	LevelText string
 	LevelNote string
 	Technique string
 	DesignRef string
+}
+
+type partCfg struct {
+	Package   string
+	Files     []string
+	Options   interp.Options
+	Harnesses []harnessCfg
+	ReplayCwd string
+}
+
+// units returns the check split into groups that each load one package.
+func (c *checkCfg) units() []*checkCfg {
+	base := *c
+	base.Parts = nil
+	us := []*checkCfg{&base}
+	for _, p := range c.Parts {
+		u := *c
+		u.Parts = nil
+		u.Package, u.Files, u.Options, u.Harnesses, u.ReplayCwd = p.Package, p.Files, p.Options, p.Harnesses, p.ReplayCwd
+		us = append(us, &u)
+	}
+	return us
 }
 
 type knownEntry struct {
@@ -79,14 +104,15 @@ type knownFile struct {
 }
 
 type replayFile struct {
-	Harness string
-	Label   string
-	Excuse  string `json:",omitempty"`
-	Bounds  map[string]int
-	Inputs  []interp.ReplayVal
-	Preemptions int `json:",omitempty"`
-	Delays      int `json:",omitempty"`
-	Expect  string // "fail" (counterexample) or "pass" (translator validation sample)
+	Harness      string
+	Label        string
+	Excuse       string `json:",omitempty"`
+	Bounds       map[string]int
+	Inputs       []interp.ReplayVal
+	Preemptions  int    `json:",omitempty"`
+	Delays       int    `json:",omitempty"`
+	DelayBounded bool   `json:",omitempty"`
+	Expect       string // "fail" (counterexample) or "pass" (translator validation sample)
 }
 
 var origPath = os.Getenv("PATH")
@@ -191,14 +217,16 @@ func overlayFiles(c *checkCfg, withTest bool) (map[string][]byte, error) {
 }
 
 type harnessReport struct {
-	Name        string
-	Bounds      map[string]int
-	Result      *interp.Result
-	Reproduced  []string
-	Discrepancy []string
+	Name           string
+	Bounds         map[string]int
+	Result         *interp.Result
+	Reproduced     []string
+	Discrepancy    []string
 	NoSampleReplay bool
-	Concrete    bool
-	Cfg         interp.Config
+	Concrete       bool
+	Cfg            interp.Config
+	Unit           *checkCfg
+	Eng            *interp.Engine
 }
 
 func cmdCheck(args []string) int {
@@ -228,110 +256,122 @@ func cmdCheck(args []string) int {
 		fmt.Println("BROKEN:", err)
 		return 2
 	}
-	ov, err := overlayFiles(c, false)
-	if err != nil {
-		fmt.Println("BROKEN:", err)
-		return 2
-	}
-	opts := c.Options
-	applyDefaultOptions(&opts)
-	t0 := time.Now()
-	eng, err := interp.Load(repoDir, c.Package, ov, &opts)
-	if err != nil {
-		fmt.Println("BROKEN: cannot load", c.Package, "with harness:", err)
-		writeEvidence(c, *tier, seed, nil, time.Since(start), 0, []string{"load error: " + err.Error()}, nil)
-		return 2
-	}
-	if os.Getenv("VP_DEBUG") != "" {
-		fmt.Fprintf(os.Stderr, "options: %+v\n", opts)
-	}
-	loadTime := time.Since(t0)
-	fmt.Printf("loaded %s in %.1fs\n", c.Package, loadTime.Seconds())
-
 	known := loadKnown()
 	var reports []*harnessReport
 	broken := []string{}
-	defer func() {
-		if w := eng.Warnings(); w != "" {
-			fmt.Print("WARNING (engine set-up):\n" + w)
+	for _, unit := range c.units() {
+		wanted := false
+		for _, h := range unit.Harnesses {
+			if *only == "" || h.Name == *only {
+				wanted = true
+			}
 		}
-	}()
-	for _, h := range c.Harnesses {
-		if *only != "" && h.Name != *only {
+		if !wanted {
 			continue
 		}
-		tc, ok := h.Tiers[*tier]
-		if !ok {
-			tc, ok = h.Tiers["quick"]
-			if !ok {
+		ov, err := overlayFiles(unit, false)
+		if err != nil {
+			fmt.Println("BROKEN:", err)
+			return 2
+		}
+		opts := unit.Options
+		applyDefaultOptions(&opts)
+		t0 := time.Now()
+		eng, err := interp.Load(repoDir, unit.Package, ov, &opts)
+		if err != nil {
+			fmt.Println("BROKEN: cannot load", unit.Package, "with harness:", err)
+			writeEvidence(c, *tier, seed, nil, time.Since(start), 0, []string{"load error: " + err.Error()}, nil)
+			return 2
+		}
+		if os.Getenv("VP_DEBUG") != "" {
+			fmt.Fprintf(os.Stderr, "options: %+v\n", opts)
+		}
+		loadTime := time.Since(t0)
+		fmt.Printf("loaded %s in %.1fs\n", unit.Package, loadTime.Seconds())
+		defer func() {
+			if w := eng.Warnings(); w != "" {
+				fmt.Print("WARNING (engine set-up):\n" + w)
+			}
+		}()
+		for _, h := range unit.Harnesses {
+			if *only != "" && h.Name != *only {
 				continue
 			}
-		}
-		cfg := interp.Config{Harness: h.Name, Bounds: tc.Bounds, MaxSteps: tc.MaxSteps, MaxPaths: tc.MaxPaths,
-			Workers: *workers, SolverTimeout: 60000, MapOrder: h.MapOrder, Seed: seed, Trace: *trace}
-		if cfg.MaxSteps == 0 {
-			cfg.MaxSteps = 2000000
-		}
-		if *maxPaths > 0 {
-			cfg.MaxPaths = *maxPaths
-		}
-		cfg.Preemptions = tc.Preemptions
-		cfg.Delays = tc.Delays
-		cfg.UnwindViolation = h.UnwindIsViolation
-		budget := tc.Budget
-		if budget == 0 {
-			budget = 600
-		}
-		cfg.Deadline = time.Now().Add(time.Duration(budget) * time.Second)
-		res := eng.Explore(cfg)
-		rep := &harnessReport{Name: h.Name, Bounds: tc.Bounds, Result: res, NoSampleReplay: h.MapOrder || h.Repeat > 0 || h.Replay == "concrete", Concrete: h.Replay == "concrete", Cfg: cfg}
-		reports = append(reports, rep)
-		fmt.Printf("harness %s: paths=%d completed=%d pruned=%d aborted=%v obligations=%d discharged=%d trivial=%d violations=%d known=%d inconclusive=%d queries=%d solver=%.1fs wall=%.1fs\n",
-			h.Name, res.Paths, res.Completed, res.Pruned, res.Aborted, res.Obligations, res.Discharged, res.TrivialTrue,
-			len(res.Violations), len(res.Known), res.Inconclusive, res.Solver.Queries, res.Solver.Time.Seconds(), res.Wall.Seconds())
-		if *trace || os.Getenv("VP_SITES") != "" {
-			type kv struct {
-				k string
-				v int
-			}
-			var kvs []kv
-			for k, v := range res.Sites {
-				kvs = append(kvs, kv{k, v})
-			}
-			sort.Slice(kvs, func(i, j int) bool { return kvs[i].v > kvs[j].v })
-			for i, x := range kvs {
-				if i >= 15 {
-					break
-				}
-				fmt.Printf("  fork-site %8d  %s\n", x.v, x.k)
-			}
-		}
-		for _, e := range res.EngineErrors {
-			fmt.Println("  ENGINE-ERROR:", e)
-			broken = append(broken, h.Name+": "+e)
-		}
-		for _, n := range res.InconclusiveNotes {
-			fmt.Printf("INCONCLUSIVE property=%s harness=%s reason=%s\n", c.Property, h.Name, n)
-		}
-		if res.Truncated {
-			fmt.Printf("INCONCLUSIVE property=%s harness=%s reason=exploration truncated by path/time budget\n", c.Property, h.Name)
-		}
-		if res.Completed == 0 && len(res.Violations)+len(res.Known) == 0 {
-			broken = append(broken, h.Name+": vacuous (no path reached the end of the harness)")
-		}
-		if res.Obligations+res.TrivialTrue == 0 {
-			broken = append(broken, h.Name+": vacuous (no assertion reached)")
-		}
-		for _, a := range h.Anchors {
-			found := false
-			for f, n := range res.Funcs {
-				if n > 0 && strings.Contains(f, a) {
-					found = true
-					break
+			tc, ok := h.Tiers[*tier]
+			if !ok {
+				tc, ok = h.Tiers["quick"]
+				if !ok {
+					continue
 				}
 			}
-			if !found {
-				broken = append(broken, h.Name+": anchored function never executed: "+a)
+			cfg := interp.Config{Harness: h.Name, Bounds: tc.Bounds, MaxSteps: tc.MaxSteps, MaxPaths: tc.MaxPaths,
+				Workers: *workers, SolverTimeout: 60000, MapOrder: h.MapOrder, Seed: seed, Trace: *trace}
+			if cfg.MaxSteps == 0 {
+				cfg.MaxSteps = 2000000
+			}
+			if *maxPaths > 0 {
+				cfg.MaxPaths = *maxPaths
+			}
+			cfg.Preemptions = tc.Preemptions
+			if tc.Delays != nil {
+				cfg.Delays, cfg.DelayBounded = *tc.Delays, true
+			}
+			cfg.UnwindViolation = h.UnwindIsViolation
+			budget := tc.Budget
+			if budget == 0 {
+				budget = 600
+			}
+			cfg.Deadline = time.Now().Add(time.Duration(budget) * time.Second)
+			res := eng.Explore(cfg)
+			rep := &harnessReport{Name: h.Name, Bounds: tc.Bounds, Result: res, NoSampleReplay: h.MapOrder || h.Repeat > 0 || h.Replay == "concrete", Concrete: h.Replay == "concrete", Cfg: cfg, Unit: unit, Eng: eng}
+			reports = append(reports, rep)
+			fmt.Printf("harness %s: paths=%d completed=%d pruned=%d aborted=%v obligations=%d discharged=%d trivial=%d violations=%d known=%d inconclusive=%d queries=%d solver=%.1fs wall=%.1fs\n",
+				h.Name, res.Paths, res.Completed, res.Pruned, res.Aborted, res.Obligations, res.Discharged, res.TrivialTrue,
+				len(res.Violations), len(res.Known), res.Inconclusive, res.Solver.Queries, res.Solver.Time.Seconds(), res.Wall.Seconds())
+			if *trace || os.Getenv("VP_SITES") != "" {
+				type kv struct {
+					k string
+					v int
+				}
+				var kvs []kv
+				for k, v := range res.Sites {
+					kvs = append(kvs, kv{k, v})
+				}
+				sort.Slice(kvs, func(i, j int) bool { return kvs[i].v > kvs[j].v })
+				for i, x := range kvs {
+					if i >= 15 {
+						break
+					}
+					fmt.Printf("  fork-site %8d  %s\n", x.v, x.k)
+				}
+			}
+			for _, e := range res.EngineErrors {
+				fmt.Println("  ENGINE-ERROR:", e)
+				broken = append(broken, h.Name+": "+e)
+			}
+			for _, n := range res.InconclusiveNotes {
+				fmt.Printf("INCONCLUSIVE property=%s harness=%s reason=%s\n", c.Property, h.Name, n)
+			}
+			if res.Truncated {
+				fmt.Printf("INCONCLUSIVE property=%s harness=%s reason=exploration truncated by path/time budget\n", c.Property, h.Name)
+			}
+			if res.Completed == 0 && len(res.Violations)+len(res.Known) == 0 {
+				broken = append(broken, h.Name+": vacuous (no path reached the end of the harness)")
+			}
+			if res.Obligations+res.TrivialTrue == 0 {
+				broken = append(broken, h.Name+": vacuous (no assertion reached)")
+			}
+			for _, a := range h.Anchors {
+				found := false
+				for f, n := range res.Funcs {
+					if n > 0 && strings.Contains(f, a) {
+						found = true
+						break
+					}
+				}
+				if !found {
+					broken = append(broken, h.Name+": anchored function never executed: "+a)
+				}
 			}
 		}
 	}
@@ -368,7 +408,7 @@ func cmdCheck(args []string) int {
 				}
 			}
 		}
-		rf := replayFile{Harness: rep.Name, Label: f.Label, Excuse: f.Excuse, Bounds: rep.Bounds, Inputs: ins, Expect: expect, Preemptions: rep.Cfg.Preemptions, Delays: rep.Cfg.Delays}
+		rf := replayFile{Harness: rep.Name, Label: f.Label, Excuse: f.Excuse, Bounds: rep.Bounds, Inputs: ins, Expect: expect, Preemptions: rep.Cfg.Preemptions, Delays: rep.Cfg.Delays, DelayBounded: rep.Cfg.DelayBounded}
 		b, _ := json.MarshalIndent(rf, "", " ")
 		os.WriteFile(p, b, 0o644)
 		return p
@@ -408,8 +448,15 @@ func cmdCheck(args []string) int {
 	knownPrinted := map[string]bool{}
 	validated := 0
 	var vioLines []string
+	if *noReplay {
+		for _, p := range pend {
+			if p.kind != "sample" {
+				fmt.Printf("  (unreplayed) %s label=%s where=%s note=%s\n", p.kind, p.f.Label, p.f.Where, p.f.Note)
+			}
+		}
+	}
 	if len(pend) > 0 && !*noReplay {
-		var paths []string
+		paths := map[*checkCfg][]string{}
 		results := map[string]replayResult{}
 		for _, p := range pend {
 			if p.rep.Concrete {
@@ -422,7 +469,7 @@ func cmdCheck(args []string) int {
 				cfg.Workers = 1
 				cfg.Trace = false
 				cfg.Deadline = time.Now().Add(120 * time.Second)
-				rr := eng.Explore(cfg)
+				rr := p.rep.Eng.Explore(cfg)
 				r := replayResult{outcome: "completed"}
 				for _, v := range rr.Violations {
 					r.fails = append(r.fails, v.Label)
@@ -436,10 +483,10 @@ func cmdCheck(args []string) int {
 				results[p.path] = r
 				continue
 			}
-			paths = append(paths, p.path)
+			paths[p.rep.Unit] = append(paths[p.rep.Unit], p.path)
 		}
-		if len(paths) > 0 {
-			out, nres, err := nativeReplay(c, paths)
+		for unit, ps := range paths {
+			out, nres, err := nativeReplay(unit, ps)
 			if err != nil {
 				fmt.Println("BROKEN: native replay failed:", err)
 				fmt.Println(tail(out, 40))
@@ -717,9 +764,12 @@ func cmdReplay(args []string) int {
 	}
 	json.Unmarshal(b, &rf)
 	var hc *harnessCfg
-	for i := range c.Harnesses {
-		if c.Harnesses[i].Name == rf.Harness {
-			hc = &c.Harnesses[i]
+	for _, u := range c.units() {
+		for i := range u.Harnesses {
+			if u.Harnesses[i].Name == rf.Harness {
+				hc = &u.Harnesses[i]
+				c = u
+			}
 		}
 	}
 	var r replayResult
@@ -736,12 +786,18 @@ func cmdReplay(args []string) int {
 			fmt.Println("BROKEN:", err)
 			return 2
 		}
-		cfg := interp.Config{Harness: rf.Harness, Bounds: rf.Bounds, MaxSteps: 5000000, Workers: 1, SolverTimeout: 60000, MapOrder: hc.MapOrder, ReplayInputs: rf.Inputs, Preemptions: rf.Preemptions, Delays: rf.Delays}
+		cfg := interp.Config{Harness: rf.Harness, Bounds: rf.Bounds, MaxSteps: 5000000, Workers: 1, SolverTimeout: 60000, MapOrder: hc.MapOrder, ReplayInputs: rf.Inputs, Preemptions: rf.Preemptions, Delays: rf.Delays, DelayBounded: rf.DelayBounded}
 		if cfg.ReplayInputs == nil {
 			cfg.ReplayInputs = []interp.ReplayVal{}
 		}
 		rr := eng.Explore(cfg)
 		r.outcome = "completed (concrete re-execution)"
+		if len(rr.SchedLog) > 0 {
+			fmt.Println("schedule (context switches of the replayed path):")
+			for _, l := range rr.SchedLog {
+				fmt.Println("  " + l)
+			}
+		}
 		for _, v := range rr.Violations {
 			r.fails = append(r.fails, v.Label)
 		}
